@@ -36,9 +36,12 @@ def key_fn(case, ob, clause):
     if clause == 2 and c[0] == "Accept" and p and p[0] == "Accept" and c[1] != p[1] and _untag(c[1]) == _untag(p[1]):
         return "same-value-and-type/tuple-subclass-returned-unchanged"                       # F4
     if clause == 4 and d[0] == "DCompound" and ob["alts"]:
-        first = next((i for i, a in enumerate(ob["alts"]) if a[0] != "Reject"), None)
-        if first is not None and not pv.is_fast(d[1][first]) and c[0] == "Accept" and \
-                any(a == c and pv.is_fast(d[1][j]) for j, a in enumerate(ob["alts"]) if j > first):
+        # F5: the compound is exactly the first non-rejecting alternative of the order "fast ones, then slow ones"
+        eff = [a for j, a in enumerate(ob["alts"]) if pv.is_fast(d[1][j])] + \
+              [a for j, a in enumerate(ob["alts"]) if not pv.is_fast(d[1][j])]
+        first_eff = next((a for a in eff if a[0] != "Reject"), ["Reject"])
+        first_decl = next((a for a in ob["alts"] if a[0] != "Reject"), ["Reject"])
+        if first_eff == c and first_decl != c and any(not pv.is_fast(x) for x in d[1]):
             return "declaration-order/fast-alternative-before-earlier-slow-one"               # F5
     if clause == 1 and d[0] == "DCompound" and c[0] == "Accept" and p == ["Propagate", "EOtherError"] and \
             v[0] == "PIndexObj" and any(a[0] == "DCast" and a[1] in ("CTInt", "CTFloat", "CTComplex") for a in d[1]):
@@ -140,7 +143,7 @@ def gen_cases(ctx, rnd):
         for v in vals:
             cases.append(dict(d=d, v=v))
     # random nestings (depth <= 3)
-    n_cfg, n_val = (45, 22) if quick else (1500, 60)
+    n_cfg, n_val = (45, 22) if quick else (900, 50)
     for _ in range(n_cfg):
         d = pv.gen_desc(rnd, 3)
         if d[0] not in ("DTuple", "DCompound"):
@@ -157,7 +160,7 @@ def gen_cases(ctx, rnd):
 
 def run(ctx):
     ok, log = ctx.proofs(PROPS)
-    t2.obligations(ctx, "C03")
+    extra = t2.obligations(ctx, "C03")
     ctx.cov["trusted_base"] += [
         "tools/drivers/c03_driver.py + pvlib.py (Python value <-> PyVal.pv description, trait construction, outcome "
         "canonicalisation) and tools/props/c03.py + vlib/pyval.py (lattice, configuration generator)",
@@ -178,7 +181,7 @@ def run(ctx):
     if ctx.replay:
         cases = [json.load(open(ctx.replay))["replay"]["case"]]
     else:
-        cases = gen_cases(ctx, rnd)
+        cases = gen_cases(ctx, rnd) + [dict(d=d, v=v) for d, v in extra]
     for c in cases[:2] + cases[-2:]:
         ctx.sample(c)
     rc, envd, err = ctx.run_driver("c03_driver.py", [], args=("--env",))
@@ -187,5 +190,6 @@ def run(ctx):
     else:
         header = pv.header_with_sub(IMPORTS, envd["sub"])
         single.run(ctx, "c03_driver.py", cases, to_term, header, CASE_T, key_fn, describe, nontrivial, RELATION,
-                   check_obs=check_obs, sanitize=False)
+                   check_obs=check_obs, shard=550)
+    t2.gate(ctx, "C03")
     proof_gate(ctx, ok, log, PROPS)
